@@ -134,6 +134,7 @@ def residuals(q, rng):
         Ic = mk(n, {2: (q.I2 + z, [])})
         bet = mk(n, {1: (0, [(1, z, be + z)])})
         return dict(
+            sqrtg=sqrtg,
             pol=psip * dot(w, e_th) - Ic * sqrtg,
             tor=psip * dot(w, e_ph) - Gh * sqrtg,
             rad=dot(w, e_r) - bet * sqrtg,
